@@ -90,6 +90,68 @@ class Hyperlinks(Harness):
             if wrong: return True, 'cells whose hyperlink target changed after save and reload: %s' % wrong
         return False, 'no mismatch in 12 native saves'
 
+WM = 'structs::writer_manager::WriterManager::<std::io::Cursor<std::vec::Vec<u8>>>::'
+PART_KINDS = {'comment': ('xl/comments', '.xml'), 'vml_drawing': ('xl/drawings/vmlDrawing', '.vml'), 'drawing': ('xl/drawings/drawing', '.xml'), 'chart': ('xl/charts/chart', '.xml')}
+class PartAllocation(Harness):
+    """the number a comments / vmlDrawing / drawing / chart part gets is the number the sheet's relationship part will point at:
+    the part must really have been written under that number, whatever parts (copied through from untouched sheets) exist already"""
+    name = 'parts.allocation_step'; property_id = 'C06'
+    entry = [WM.replace('::<std::io::Cursor<std::vec::Vec<u8>>>', '') + x for x in ('add_file_at_comment', 'add_file_at_vml_drawing', 'add_file_at_drawing', 'add_file_at_chart', 'add_writer', 'check_file_exist')]
+    classes = {}
+    def __init__(self, tier):
+        self.npre = 2 if tier == 'quick' else 3
+        self.doc = 'inductive step of part numbering: a WriterManager whose file list already holds up to %d parts of the same kind under symbolic numbers 1..9 (parts of untouched sheets that were copied through) and one unrelated part; one add_file_at_{comment,vml_drawing,drawing,chart}: the returned number names a part that did not exist, exactly that part is written, and the file list stays duplicate-free' % self.npre
+        self.bounds = {'existing_parts_of_the_kind': [0, self.npre], 'their_numbers': [1, 9], 'kinds': sorted(PART_KINDS), 'zip': 'make_file_from_writer stubbed to a recorder (the archive is outside the kernel)'}
+    def run(self, it, ctx, res):
+        kinds = sorted(PART_KINDS)
+        ki = ctx.sym_int('kind', 0, len(kinds) - 1); kind = kinds[next(i for i in range(len(kinds)) if ctx.branch(ki == i))]
+        pre, suf = PART_KINDS[kind]
+        name = lambda n: [ord(c) for c in pre] + [48 + n] + [ord(c) for c in suf]
+        nums = []
+        for i in range(self.npre):
+            if ctx.branch(ctx.sym_bool('present%d' % i)):
+                n = ctx.sym_int('num%d' % i, 1, 9)
+                for m_ in nums: ctx.assume(n != m_)
+                nums.append(n)
+        files = [SStr(name(n)) for n in nums] + [SStr([ord(c) for c in 'xl/worksheets/sheet1.xml'])]
+        written = []
+        def mk_file(it_, callee, path, arv, writer, d, light):
+            written.append(list(deref_all(path).chars)); return OK([])
+        it.stub_patterns = [(re.compile(r'writer::driver::make_file_from_(writer|bin)::<.*>'), mk_file)]
+        info = {'kind': kind, 'existing': len(nums)}
+        try:
+            wm = Box_(it.call(WM + 'new', [Ref(Box_('ZIP'))]))
+            wm.v.fields[0] = list(files)
+            r = it.call(WM + 'add_file_at_' + kind, [Ref(wm), 'XMLWRITER'])
+            after = [list(deref_all(f).chars) for f in wm.v.fields[0]]
+        except Panic as e:
+            self.fail(ctx, res, 'no-panic', str(e), info=info); return
+        finally:
+            it.stub_patterns = []
+        if r.variant != 0: self.fail(ctx, res, 'returns-ok', 'Err without an I/O failure', info=info); return
+        n = r.fields[0]
+        if is_sym(n): n = ctx.concretize(n) if hasattr(ctx, 'concretize') else n
+        info['returned'] = str(n)
+        want = name(n) if isinstance(n, int) and 1 <= n <= 9 else [ord(c) for c in '%s%s%s' % (pre, n, suf)]
+        from harness.c17 import chars_eq
+        self.oblige(ctx, res, 'returned-number-was-free', z3.And(*[n != m_ for m_ in nums]) if nums else True, info=info)
+        self.oblige(ctx, res, 'exactly-that-part-is-written', len(written) == 1 and len(written[0]) == len(want) and chars_eq(written[0], want), info=dict(info, written=len(written)))
+        listed = [f for f in after if len(f) == len(want)]
+        hits = sum(1 for f in listed if all((a == b) if isinstance(a, int) and isinstance(b, int) else ctx.branch(a == b) for a, b in zip(f, want)))
+        self.oblige(ctx, res, 'file-list-holds-the-part-once', hits == 1 and len(after) == len(files) + 1, info=dict(info, listed=len(after)))
+    def case_of(self, v):
+        m = v['model']; kinds = sorted(PART_KINDS)
+        c = {'kind': kinds[m['kind']], 'existing': sorted(m['num%d' % i] for i in range(self.npre) if m.get('present%d' % i)), 'oblig': v['oblig']}
+        c['show'] = dict(c); return c
+    def confirm(self, case, profile):
+        if case['kind'] not in ('comment', 'vml_drawing'): return False, 'no native scenario for part kind %s' % case['kind']
+        ex = [n for n in case['existing'] if n <= 4]
+        if len(ex) != len(case['existing']): return False, 'existing numbers above 4 have no native scenario'
+        r = native.run_cases([['lazy_comments', ','.join(str(n) for n in ex)]], profile, timeout_each=120)[0]
+        if r[0] != 'ok': return True, 'untouched sheets %r -> %r' % (ex, r)
+        before, after = native.unhx(r[1][0]), native.unhx(r[1][1])
+        return before != after, 'four sheets with one comment each, lazily read, sheets %r left untouched and the others touched: comments before %r, after save and reload %r' % (ex, before, after)
+
 def harnesses(tier):
-    return [Hyperlinks(tier)]
+    return [Hyperlinks(tier), PartAllocation(tier)]
 OPTIONS = {'want_smir': True}
